@@ -260,11 +260,11 @@ fn http_leg(ctx: &mut Ctx, rep: &mut Report) {
 }
 
 fn run_c20(ctx: &mut Ctx, rep: &mut Report) {
-    if ctx.shard % 4 == 0 { http_leg(ctx, rep); }
+    if ctx.shard % 4 == 0 && !cfg!(miri) { http_leg(ctx, rep); }   // sockets are FFI: not under Miri
     let mut rng = ctx.rng("c20");
     let cases = ctx.tier.pick(6_000u64, 200_000);
     for i in 0..cases {
-        if i % 64 == 0 && !ctx.time_left() { rep.note("time budget reached"); break }
+        if (i % 64 == 0 || cfg!(miri)) && !ctx.time_left() { rep.note("time budget reached"); break }
         let (vrps, routes) = gen_case(&mut rng);
         let snap = snapshot_of(&vrps);
         // (a) library
